@@ -1493,6 +1493,8 @@ def _literals(cond):
                 return None
         else:
             rest.append((g, v))
+    if not _exclusive_ok(fixed):
+        return None     # `x == 'a'` and `x == 'b'` on one path: the path cannot be taken
     return fixed, rest
 
 
